@@ -2,6 +2,7 @@ import Glas.Model.Items
 import Glas.Gen.Parser
 import Glas.Lemmas.ItemsLocal
 import Glas.Lemmas.ItemsSeg
+import Glas.Lemmas.ItemsMain
 /-!
 # C03 — a syntax error inside one definition does not disturb the others: locality of items
 
@@ -10,6 +11,13 @@ depends only on the tokens from its first token up to two tokens past its last o
 depend on anything before it.  Hence damage confined to one item cannot change how the others are
 parsed, *provided the damaged item's parse still ends at the item's own end* — that last condition
 is what the implementation-side oracle tests (and where the recorded defects are).
+
+`runMain_is_items` ties the item-wise iteration to the run the other theorems (C01, C02) speak about:
+a normally ending `runMain` parses exactly the items `parseItems` finds, and its events and errors are
+theirs in order (history independence of the interpreter, `Lemmas/ItemsHist.lean`: the events, errors,
+identities and depth accumulated before an item do not influence its parse; the look-ahead counter
+does, but only towards the parser's own `parser is stuck` guard).  `C03_module` is the property for the
+run itself.
 -/
 namespace Glas.Props.C03
 open Glas.Dsl Glas.Items Glas.Gen
@@ -96,5 +104,61 @@ example :
     ((parseSeg glasProg 1 4000 (fa ++ vic' ++ fa) 3 7 16).map (fun l => l.map (fun o => (o.start, o.stop))) = some [(7, 16)]) ∧
     ((parseItems glasProg 1 4000 (fa ++ vic' ++ fa) 5).map (fun l => l.map (fun o => (o.start, o.stop, o.errs.length))) =
       some [(0, 7, 0), (7, 16, 2), (16, 23, 0)]) := by decide +kernel
+
+/-- the generated `module` procedure is the loop the item-wise model iterates: open the root node,
+`while !p.eof() { statement(p) }`, close it as `SOURCE_FILE` -/
+theorem glas_mainShape :
+    (glasProg.procs[glasProg.main]?).map (fun p => p.body) =
+      some (Glas.Lemmas.Dsl.mainBody I_statement K_SOURCE_FILE) := by decide +kernel
+
+/-- **`runMain` is the item-wise iteration** (any program whose main has that shape, any fuel, any tokens):
+if the run ends normally, `parseItems` - one `statement` after the other, each from a fresh state - finds
+items, and the run's node events are the root's opening, the items' events in order, the root's closing;
+its syntax errors are the items' errors in order. -/
+theorem runMain_is_items (P : Prog) (f k : Nat)
+    (hP : (P.procs[P.main]?).map (fun p => p.body) = some (Glas.Lemmas.Dsl.mainBody f k))
+    (n : Nat) (toks : List Kind) (σ : St) (hr : runMain P n toks = .ok σ) :
+    ∃ items, parseItems P f n toks n = some items ∧
+      evKinds σ.events = some k :: (items.flatMap (fun o => evKinds o.events) ++ [some 0]) ∧
+      σ.errs = items.flatMap (fun o => o.errs) :=
+  Glas.Lemmas.ItemsMain.runMain_items P f k hP n toks σ hr
+
+/-- **C03 for the run itself.**  Under the hypotheses of `C03_conditional` (containment of the damage), every
+normally ending run of the parser over the damaged file `pre ++ vic' ++ post` consists of: the root's opening, the
+events of the very items the undamaged file has in front of the victim, the victim's own items, the events of the
+items `post` parses into on its own, the root's closing - and likewise for the reported errors (positions moved). -/
+theorem C03_module (P : Prog) (f k : Nat)
+    (hP : (P.procs[P.main]?).map (fun p => p.body) = some (Glas.Lemmas.Dsl.mainBody f k))
+    (n : Nat) (pre vic vic' post : List Kind) (k1 k2 k3 : Nat)
+    (ipre iv' ipost0 : List ItemOut)
+    (hhead : vic.take (progMaxNth P + 1) = vic'.take (progMaxNth P + 1))
+    (hlen : progMaxNth P + 1 ≤ vic.length) (hlen' : progMaxNth P + 1 ≤ vic'.length)
+    (hpre : parseSeg P f n (pre ++ vic ++ post) k1 0 pre.length = some ipre)
+    (hcontain : parseSeg P f n (pre ++ vic' ++ post) k2 pre.length (pre.length + vic'.length) = some iv')
+    (hpost : parseSeg P f n post k3 0 post.length = some ipost0)
+    (σ' : St) (hr : runMain P n (pre ++ vic' ++ post) = .ok σ') :
+    let items := ipre ++ iv' ++ ipost0.map (fun o => o.shift (pre.length + vic'.length))
+    evKinds σ'.events = some k :: (items.flatMap (fun o => evKinds o.events) ++ [some 0]) ∧
+    σ'.errs = items.flatMap (fun o => o.errs) := by
+  obtain ⟨items, hit, hev, herr⟩ := runMain_is_items P f k hP n _ σ' hr
+  have hc := (C03_conditional P f n pre vic vic' post k1 k2 k3 ipre iv' ipost0 hhead hlen hlen' hpre hcontain hpost).1
+  unfold parseItems at hit hc
+  have h1 := Glas.Lemmas.ItemsSeg.parseSeg_mono P f n _ _ _ _ _ hit (n + (k1 + k2 + k3)) (by omega)
+  have h2 := Glas.Lemmas.ItemsSeg.parseSeg_mono P f n _ _ _ _ _ hc (n + (k1 + k2 + k3)) (by omega)
+  rw [h1] at h2
+  simp only [Option.some.injEq] at h2
+  subst h2
+  exact ⟨hev, herr⟩
+
+/-- non-vacuity: the run over the damaged file of the example above ends normally, and its fourteen node events
+and two errors are those of the three items -/
+example :
+    let fa := [K_FN_KW, K_IDENT, K_L_PAREN, K_R_PAREN, K_L_BRACE, K_INTEGER, K_R_BRACE]
+    let vic' := [K_FN_KW, K_IDENT, K_L_PAREN, K_R_PAREN, K_L_BRACE, K_INTEGER, K_R_PAREN, K_COMMA, K_R_BRACE]
+    (match runMain glasProg 4000 (fa ++ vic' ++ fa), parseItems glasProg I_statement 4000 (fa ++ vic' ++ fa) 5 with
+     | .ok σ, some items =>
+         decide (evKinds σ.events = some K_SOURCE_FILE :: (items.flatMap (fun o => evKinds o.events) ++ [some 0])) &&
+         decide (σ.errs = items.flatMap (fun o => o.errs)) && decide (σ.errs.length = 2)
+     | _, _ => false) = true := by decide +kernel
 
 end Glas.Props.C03
